@@ -146,6 +146,13 @@ TEXT["C02"] = {
     "design_ref": "DESIGN.md section 3, C02",
 }
 
+TEXT["C01"] = {
+    "technique": "property-based testing (rapid) over grammar programs, token-mutated programs and lexeme soup + native coverage-guided fuzzing of raw bytes; crash / hang detection with a write-ahead journal",
+    "text": "Every case compiles and (if that succeeds) executes a generated template against a context holding the whole value universe of the property (also installed as Globals): grammar programs over every registered tag and filter (registry hook) with error-prone constructs, a crude grammar that mixes path steps, subscripts, calls and filters freely, random lexeme soup, and 1-3 token-level mutations of valid programs; in the thorough tier also raw bytes through Go's native fuzzer seeded with the repository's fixtures and hostile constants. The oracle is totality only: exactly one of (template, *Error) from compilation, Execute returns, no panic, the worker process survives (a death is attributed to the journalled case and confirmed in a fresh process), no case exceeds the hang bound.",
+    "note": "Trusted: the harness' own context functions (total by construction) and the journal / confirmation logic of the driver. Absence of hangs only up to the generated sizes.",
+    "design_ref": "DESIGN.md section 3, C01",
+}
+
 PENDING_REASON = "check not built yet in this build phase (DESIGN.md section 3 describes the planned PBT check); will be claimed once its quick tier is silent on the unchanged tree and kills its mutants"
 
 
